@@ -12,7 +12,7 @@
    (C12_warp_elapse is the warp clause for the other segments, those starting on beat 0 included; C12_half_tick the
    bound in beats). *)
 From Coq Require Import List ZArith QArith Qabs Bool Sorting.Sorted.
-From SV Require Import Sx Beat Engine Proofs.EngineFacts Proofs.Hittable Proofs.TimeLaw Proofs.BeatAt Proofs.WarpElapse Proofs.RoundTripEvent Proofs.BeatMono Proofs.OwnTime Proofs.InPause.
+From SV Require Import Sx Beat Engine Proofs.EngineFacts Proofs.Hittable Proofs.TimeLaw Proofs.BeatAt Proofs.WarpElapse Proofs.RoundTripEvent Proofs.BeatMono Proofs.OwnTime Proofs.InPause Proofs.WarpStart.
 Import ListNotations.
 Open Scope Q_scope.
 
@@ -169,6 +169,18 @@ Theorem C12_warp_elapse : forall td b0 v0 rest, dom td -> td_bpms td = (b0, v0) 
       fst (beat_at_raw (sts td v0) d T tWARP) == s /\ fst (beat_at_raw (sts td v0) d T tSTOP) == e.
 Proof. exact warp_elapse_td. Qed.
 Print Assumptions C12_warp_elapse.
+
+(* the WARP-tag half of that clause for EVERY coalesced segment - stops, delays and BPM changes on or inside it allowed,
+   start on beat 0 included: at the time its start is reached (time_at(s, WARP)) the WARP tag answers the start s.  (Every
+   earlier state is strictly earlier in time, and every later state at that same time carries a tag above WARP: a later
+   WARP event belongs to a later segment, which is reached strictly later.) *)
+Theorem C12_warp_tag_start : forall td b0 v0 rest, dom td -> td_bpms td = (b0, v0) :: rest -> b0 == 0 ->
+  exists segs : list (Q * Q),
+    (forall x, in_raw (td_warps td) x <-> exists s e, In (s, e) segs /\ s <= x /\ x < e) /\
+    forall s e d, In (s, e) segs ->
+      fst (beat_at_raw (sts td v0) d (time_at (sts td v0) (init_state td v0) s tWARP) tWARP) == s.
+Proof. exact warp_tag_start_td. Qed.
+Print Assumptions C12_warp_tag_start.
 
 (* rounding to the tick does not depend on how the rational is written, and fixes every tick *)
 Theorem C12_round_well_defined : forall a b, a == b -> tick_round a == tick_round b.
